@@ -133,6 +133,15 @@ func (p *Program) verifyUnitOnce(u *Unit, splitVal *big.Int, sitePrefix string) 
 		x.bindResults(renv, fn, c, o.rets)
 		x.applyLemmas(nil, o.st, renv, "return")
 		group := fmt.Sprintf("%sret%d", sitePrefix, retIdx)
+		for _, wc := range c.Witness {
+			t, err := x.evalBool(renv, wc.Expr)
+			if err != nil {
+				x.errorf("%s: witness %s: %v", u.Name, wc.Label, err)
+				continue
+			}
+			x.assumed["witness definition "+wc.Label+" in "+u.Name] = true
+			o.st.assume(t)
+		}
 		for _, a := range c.Asserts {
 			if a.Label == "return" {
 				t, err := x.evalBool(renv, a.Expr)
@@ -250,6 +259,20 @@ func (x *Exec) frameEnv(f *Frame, st *State, header *ssa.BasicBlock) *Env {
 				}
 			}
 		}
+		for name, v := range g.names {
+			if _, exists := env.vars[name]; exists {
+				continue
+			}
+			if p, ok := g.sliceObjs[v]; ok {
+				env.vars[name] = p
+				continue
+			}
+			if val, ok := g.regs[v]; ok {
+				env.vars[name] = val
+			} else if c, ok := v.(*ssa.Const); ok {
+				env.vars[name] = x.constVal(c)
+			}
+		}
 		for v, val := range g.regs {
 			if phi, ok := v.(*ssa.Phi); ok && phi.Comment != "" {
 				if g == f && header != nil && phi.Block() != header {
@@ -282,6 +305,8 @@ func (x *Exec) frameEnv(f *Frame, st *State, header *ssa.BasicBlock) *Env {
 		}
 	}
 	if it, ok := st.iters[maxID]; ok {
+		env.vars["$iter"] = it
+		env.vars["$iterid"] = maxID
 		env.vars["it_idx"] = it.Idx
 		env.vars["it_n"] = it.N
 		env.vars["it_seq"] = it.Seq
@@ -474,9 +499,26 @@ func (x *Exec) havocTarget(f *Frame, st *State, addr ssa.Value) {
 		}
 		break
 	}
+	if p, ok := f.sliceObjs[cur]; ok {
+		if c, ok := st.mem[p.Obj].(*Term); ok && isSliceSort(c.Sort) {
+			// element stores never change the length of the slice
+			st.mem[p.Obj] = Con(c.Sort, SelField(c, 0), x.freshTerm("loopelems", c.Sort.Fields[1].Sort))
+		}
+		return
+	}
 	v, ok := f.regs[cur]
 	if !ok {
 		return // defined inside the loop: fresh each iteration
+	}
+	if t, isT := v.(*Term); isT && isSliceSort(t.Sort) {
+		// a slice register written through inside the loop: give it a cell now, then havoc it
+		if f.sliceObjs == nil {
+			f.sliceObjs = map[ssa.Value]*PtrVal{}
+		}
+		o := x.newObj(cur.Type(), "slice:"+cur.Name())
+		st.mem[o] = Con(t.Sort, SelField(t, 0), x.freshTerm("loopelems", t.Sort.Fields[1].Sort))
+		f.sliceObjs[cur] = &PtrVal{Obj: o}
+		return
 	}
 	if pv, ok := v.(*PtrVal); ok {
 		if _, isG := x.prog.globalObjs[pv.Obj]; isG {
